@@ -2,18 +2,29 @@ package main
 
 import (
 	"fmt"
+	"runtime"
+	"time"
 
-	sdk "github.com/cosmos/cosmos-sdk/types"
-	"verifharness/sim"
+	"verifharness/ovl"
 )
 
 func main() {
-	n, err := sim.NewChain(sim.DefaultCfg(1, 1))
-	if err != nil {
-		panic(err)
+	fmt.Println("overlay enabled:", ovl.Enabled)
+	m := map[string]int{"a": 1, "b": 2, "c": 3}
+	for start := uint64(0); start < 8; start++ {
+		s := start
+		ovl.SetMapIterHook(func(pc uintptr, count int, B uint8) uint64 {
+			_ = runtime.FuncForPC(pc).Name()
+			return s
+		})
+		out := ""
+		for k := range m {
+			out += k
+		}
+		ovl.SetMapIterHook(nil)
+		fmt.Print(out, " ")
 	}
-	reg := n.App.AppCodec().InterfaceRegistry()
-	for _, u := range reg.ListImplementations(sdk.MsgInterfaceProtoName) {
-		fmt.Println(u, n.App.MsgServiceRouter().HandlerByTypeURL(u) != nil)
-	}
+	fmt.Println()
+	ovl.SetNowOffset(400 * 86400)
+	fmt.Println(time.Now().UTC())
 }
